@@ -386,13 +386,27 @@ def r3(R, m):
             R.check(adds[nm][1].lineno > loop.end_lineno, "C09.R3", REL, adds[nm][1].lineno, "%s.assignlabels" % CLS, "column %s stored after the grain loop" % nm,
                     "the column is stored before all grains have competed for the peaks")
     # second loop
-    sel = [a_ for a_ in ast.walk(outer) if isinstance(a_, ast.Assign) and isinstance(a_.value, ast.Call) and (dotted(a_.value.func) or "").endswith("compress")
-           and lb in nows(src(a_.value))]
-    R.shape(len(sel) == 1, "C09.R3", REL, "%s.assignlabels" % CLS, "ind = compress(%s == g, arange(nr))" % lb)
+    def where_cond(v):
+        """the boolean mask of 'row numbers where <mask>': compress(mask, arange(n)), flatnonzero(mask), nonzero/where(mask)[0],
+        arange(n)[mask] (arange possibly through a local name)"""
+        if isinstance(v, ast.Call):
+            d_ = (dotted(v.func) or "").split(".")[-1]
+            if d_ == "compress" and len(v.args) == 2 and "arange" in pyfacts.resolved_src(fn, v.args[1], 2):
+                return v.args[0]
+            if d_ == "flatnonzero" and len(v.args) == 1:
+                return v.args[0]
+        if isinstance(v, ast.Subscript):
+            if isinstance(v.value, ast.Call) and (dotted(v.value.func) or "").split(".")[-1] in ("nonzero", "where") and len(v.value.args) == 1 and src(v.slice) == "0":
+                return v.value.args[0]
+            if "arange" in pyfacts.resolved_src(fn, v.value, 2) and isinstance(v.slice, ast.Compare):
+                return v.slice
+        return None
+    sel = [a_ for a_ in ast.walk(outer) if isinstance(a_, ast.Assign) and where_cond(a_.value) is not None and lb in nows(src(a_.value))]
+    R.shape(len(sel) == 1, "C09.R3", REL, "%s.assignlabels" % CLS, "ind = row numbers where %s == g (compress / flatnonzero / where / arange[...])" % lb)
     sel = sel[0]
     loop2 = enclosing_loops(sel)[0]
     g2 = loop2.target.id if isinstance(loop2.target, ast.Name) else None
-    cmpx = sel.value.args[0]
+    cmpx = where_cond(sel.value)
     okc = isinstance(cmpx, ast.Compare) and isinstance(cmpx.ops[0], ast.Eq) and {nows(src(cmpx.left)), nows(src(cmpx.comparators[0]))} == {lb, g2}
     R.check(okc and sel.lineno > loop.end_lineno and "self.grainnames" in src(loop2.iter), "C09.R3", REL, sel.lineno, "%s.assignlabels" % CLS, src(sel)[:70],
             "the peaks handed to a grain are not exactly those labelled with its name after all grains competed")
@@ -400,9 +414,14 @@ def r3(R, m):
     want_takes = {"peaks_xyz": "peaks_xyz", "sc": "sc", "fc": "fc", "om": "omega"}
     got = {}
     for a_ in ast.walk(loop2):
-        if isinstance(a_, ast.Assign) and isinstance(a_.targets[0], ast.Attribute) and isinstance(a_.targets[0].value, ast.Name) \
-                and isinstance(a_.value, ast.Call) and (dotted(a_.value.func) or "").endswith("take"):
-            got[a_.targets[0].attr] = (nows(src(a_.value.args[0])), nows(src(a_.value.args[1])), a_)
+        if not (isinstance(a_, ast.Assign) and isinstance(a_.targets[0], ast.Attribute) and isinstance(a_.targets[0].value, ast.Name)):
+            continue
+        v = a_.value
+        if isinstance(v, ast.Call) and (dotted(v.func) or "").endswith("take") and len(v.args) >= 2 and \
+                all(k_.arg == "axis" and src(k_.value) == "0" for k_ in v.keywords):
+            got[a_.targets[0].attr] = (nows(src(v.args[0])), nows(src(v.args[1])), a_)
+        elif isinstance(v, ast.Subscript) and isinstance(v.slice, ast.Name):
+            got[a_.targets[0].attr] = (nows(src(v.value)), v.slice.id, a_)      # X[ind] with an integer index array == take(X, ind, axis=0)
     for attr, srcname in want_takes.items():
         R.check(attr in got and got[attr][1] == indn and got[attr][0].split(".")[-1] == srcname, "C09.R3", REL,
                 got[attr][2].lineno if attr in got else loop2.lineno, "%s.assignlabels" % CLS,
